@@ -507,8 +507,8 @@ class ObjectBase(EntityContainer):
             from the workspace by
             :func:`~geoh5py.shared.weakref_utils.remove_none_referents`.
         """
-        if not isinstance(children, list):
-            children = [children]
+        # the request may be the list of children itself: work on a snapshot
+        children = list(children) if isinstance(children, list) else [children]
 
         for child in children:
             if child not in self._children:
